@@ -356,8 +356,9 @@ def run(F, rep, tier):
                 rep.check(total(hw) == hsize, "C07-R2", "header:size-constant", "ByteCodeHeader::write_to writes %d bytes but HEADER_SIZE = %s" % (total(hw), hsize), sample={"written": total(hw), "HEADER_SIZE": hsize})
     run_r5(F, rep, crate, cg)
     run_r6(F, rep, crate, tier)
-    from rules.c07_fields import run_r7
+    from rules.c07_fields import run_r7, run_r8
     run_r7(F, rep, crate)
+    run_r8(F, rep, crate, tier)
 
 
 def _int_eval(e):
